@@ -58,3 +58,11 @@ def noisy(n):
 
 def initializer():
     pass
+
+
+def linger(seconds: float) -> int:
+    """returns at once, but leaves a non-daemon thread behind: the process exits `seconds` later"""
+    import threading
+    import time
+    threading.Thread(target=time.sleep, args=(seconds,)).start()
+    return 7
